@@ -57,7 +57,8 @@ func NextOdometer(rec *Recorded) (next []int, ok bool) {
 }
 
 type EncOptions struct {
-	// BinChunkTag is the non-final binary chunk tag of the dialect under test ('b').
+	// BinChunkTag is the non-final binary chunk tag: 'A' (Hessian 2.0) or 'b' (the draft quoted in binary.go, still accepted
+	// by the decoder where x62 cannot be an instance of class #2).
 	BinChunkTag byte
 	// CompactDate allows the x4b (minutes) form for whole-minute instants.
 	CompactDate bool
@@ -94,7 +95,7 @@ type Encoder struct {
 
 func NewEncoder(c Choices, opt EncOptions) *Encoder {
 	if opt.BinChunkTag == 0 {
-		opt.BinChunkTag = 'b'
+		opt.BinChunkTag = 'A'
 	}
 	if opt.MaxChunks == 0 {
 		opt.MaxChunks = 4
